@@ -1,7 +1,8 @@
 /* C19 - allocation failure yields a clean error, never a crash or a skipped check.
  *
  * Scenario = load keys and CAs from PEM, create sessions (client with expected name), handshake
- * (full / resumed / client-auth, per version), data both ways, closure, delete everything.
+ * (full / resumed by session id, TLS 1.2 ticket, TLS 1.3 ticket or PSK / client-auth, RSA and ECDSA
+ * identities, per version), data both ways, closure, delete everything.
  * A counting pass numbers every allocation made inside library API calls (link-time
  * --wrap=malloc,calloc,realloc; the harness's own allocations are exempt).  Then one fork()ed run
  * per injected failure k.  Oracle per run: no sanitizer report / crash / hang (driver), nothing
@@ -32,6 +33,18 @@ static const scn_t scns[] = {
     { "tls12-wrong-name", MX_TLS12, 0x009c, 0, 1, 0, BAD_WRONG_NAME },
     { "tls13-wrong-name", MX_TLS13, 0x1301, 0, 1, 0, BAD_WRONG_NAME },
     { "dtls12-untrusted", MX_DTLS12, 0x003c, 0, 1, 0, BAD_UNTRUSTED_CA },
+    /* TLS 1.3 with session-ticket keys loaded: NewSessionTicket is written/parsed, round 2 resumes from the ticket
+     * (pre_shared_key + psk_key_exchange_modes written, ticket decrypted and imported) */
+    { "tls13-ticket-resumed", MX_TLS13, 0x1301, 0, 2, 1, BAD_NONE },
+    { "tls13-ticket-clientauth", MX_TLS13, 0x1302, 1, 2, 1, BAD_NONE },
+    /* ECDSA identities on both sides, ticket + client auth (CertificateRequest over a CA list), DTLS client auth resumed */
+    { "tls12-ecdsa-clientauth", MX_TLS12, 0xc02c, 1, 1, 0, BAD_NONE },
+    { "dtls12-rsa-gcm-clientauth-resumed", MX_DTLS12, 0x009c, 1, 2, 0, BAD_NONE },
+    { "tls12-ecdhe-rsa-ticket-clientauth", MX_TLS12, 0xc030, 1, 2, 1, BAD_NONE },
+    { "tls11-ecdhe-ecdsa-cbc", MX_TLS11, 0xc009, 0, 1, 0, BAD_NONE },
+    { "tls13-chacha-clientauth-untrusted", MX_TLS13, 0x1303, 1, 1, 0, BAD_UNTRUSTED_CA },
+    { "tls12-ecdsa-wrong-key", MX_TLS12, 0xc02b, 0, 1, 0, BAD_WRONG_KEY },
+    { "dtls12-wrong-name", MX_DTLS12, 0xc02f, 0, 1, 0, BAD_WRONG_NAME },
 };
 #define NSCN ((int) (sizeof scns / sizeof scns[0]))
 
